@@ -124,6 +124,14 @@ def cases(seed, tier):
                     cfg = dict(FULL_CFG, **litcfg)
                     out.append({"name": "lit/%s/%d%s" % (pn, n, "u" if uni else ""),
                                 "code": tmpl.replace("LIT", body), "config": cfg})
+    # real-world library files (npm's own sources, MIT / ISC / Artistic-2.0): cannot be executed meaningfully, so the
+    # static deciders carry the weight here (C02, C03, C04, C08, C13, C14, C15) and the design model must predict them
+    corpus = sorted(f for f in os.listdir(os.path.join(vlib.VERIF, "corpus")) if f.endswith(".js"))
+    pick = corpus if tier == "thorough" else rng.sample(corpus, min(36, len(corpus)))
+    for f in pick:
+        code = open(os.path.join(vlib.VERIF, "corpus", f), encoding="utf-8", errors="replace").read()
+        out.append({"name": "corpus/" + f, "code": code, "file": "/w/corpus/" + f,
+                    "config": FULL_CFG if rng.random() < 0.7 else gen.rand_config(rng, force_full=False)})
     # reserved-prefix identifiers planted in every kind of position (C06: refuse or stay clear)
     for k, (pn, tmpl) in enumerate(RESERVED_PLACEMENTS):
         for idx in (0, 1, 7):
